@@ -509,6 +509,53 @@ def sym_waters(text, n):
     return "\n".join(lines[:end] + out + lines[end:] + ["END"]) + "\n"
 
 
+def solvate(text, specs):
+    """Waters on a 3.1 A grid around chosen polymer residues ([[residue_index, n], ...]):
+    up to n grid points per residue that keep 2.6 - 4.5 A from every atom.  Puts hydrogen-
+    bond partners (and with them neighbour queries) around a residue of interest, e.g. a
+    chain terminus, where the bundled structures have none."""
+    lines = [l for l in text.splitlines() if l.strip() != "END"]
+    atoms = [i for i, l in enumerate(lines) if _is_atom(l)]
+    groups = polymer_groups(residue_groups(lines))
+    if not atoms or not groups:
+        return text
+    pts = [_xyz(lines[i]) for i in atoms]
+    try:
+        resno = max(int(lines[i][22:26]) for i in atoms) + 20
+        serial = max(int(lines[i][6:11]) for i in atoms) + 20
+    except ValueError:
+        resno, serial = 800, 8000
+    chain = lines[atoms[-1]][21]
+    new = []
+    for idx, n in specs:
+        g = groups[int(idx) % len(groups)]
+        gp = [_xyz(l) for l in g["lines"]]
+        lo = [math.floor(min(p[k] for p in gp)) - 4.0 for k in range(3)]
+        hi = [max(p[k] for p in gp) + 4.0 for k in range(3)]
+        cand = []
+        x = lo[0]
+        while x <= hi[0]:
+            y = lo[1]
+            while y <= hi[1]:
+                z = lo[2]
+                while z <= hi[2]:
+                    if min(math.dist((x, y, z), p) for p in pts) >= 2.6 and \
+                            min(math.dist((x, y, z), p) for p in gp) <= 4.5:
+                        cand.append((x, y, z))
+                    z += 3.1
+                y += 3.1
+            x += 3.1
+        step = max(1, len(cand) // max(1, int(n)))
+        for x, y, z in cand[::step][: int(n)]:
+            new.append(f"HETATM{serial % 100000:5d}  O   HOH {chain}{resno % 10000:4d}    "
+                       f"{x:8.3f}{y:8.3f}{z:8.3f}  1.00 20.00           O")
+            pts.append((x, y, z))
+            serial += 1
+            resno += 1
+    end = atoms[-1] + 1
+    return "\n".join(lines[:end] + new + lines[end:] + ["END"]) + "\n"
+
+
 def dup_water(text):
     """One water listed twice (same coordinates, next residue number): a duplicate record
     as left behind by merging files; two atoms at distance zero."""
@@ -628,6 +675,8 @@ def structure_text(cfg):
         text = split_chains(text, cfg["chains"])
     if cfg.get("dimer_same_id"):
         text = dimer_same_id(text)
+    if cfg.get("solvate"):
+        text = solvate(text, cfg["solvate"])
     if cfg.get("sym_waters"):
         text = sym_waters(text, cfg["sym_waters"])
     if cfg.get("dup_water"):
